@@ -5,6 +5,7 @@ package main
 
 import (
 	"fmt"
+	"go/ast"
 	"go/token"
 	"go/types"
 
@@ -28,9 +29,59 @@ func sessionMsgHandlers(c *Ctx, rule string) []*ssa.Function {
 			c.Undecided(rule, "transport."+n, "function not found")
 			continue
 		}
-		out = append(out, f)
+		out = append(out, handlerBody(c.P, f))
 	}
 	return out
+}
+
+// handlerBody: the function that does the handler's work — f itself when it calls readPacketLocked, else
+// the local helper cut out of f that does (a lock-and-delegate wrapper keeps the name, the body moves).
+func handlerBody(P *Program, f *ssa.Function) *ssa.Function {
+	if readPacketCall(f) != nil {
+		return f
+	}
+	var body *ssa.Function
+	eachInstr(f, func(ins ssa.Instruction) {
+		if call, ok := ins.(*ssa.Call); ok {
+			if g := staticCallee(&call.Call); g != nil && g != f && len(g.Blocks) > 0 && P.OwnedBy(g, f) && readPacketCall(g) != nil {
+				body = g
+			}
+		}
+	})
+	if body != nil {
+		return body
+	}
+	return f
+}
+
+// handlerHelper: g is a local helper shared by the session message handlers only (unexported, every
+// caller is a static call from a handler body): what it does is judged at its call sites.
+func handlerHelper(P *Program, g *ssa.Function, handlers []*ssa.Function) bool {
+	if g == nil || g.Parent() != nil || ast.IsExported(g.Name()) || len(g.Blocks) == 0 {
+		return false
+	}
+	edges := P.Callers(g)
+	if len(edges) == 0 {
+		return false
+	}
+	for _, e := range edges {
+		if e.Site == nil || e.Site.Common().StaticCallee() != g {
+			return false
+		}
+		if _, isGo := e.Site.(*ssa.Go); isGo {
+			return false
+		}
+		isH := false
+		for _, h := range handlers {
+			if e.Caller.Func == h {
+				isH = true
+			}
+		}
+		if !isH {
+			return false
+		}
+	}
+	return true
 }
 
 // readPacketCall finds the call of readPacketLocked in fn.
@@ -236,7 +287,8 @@ func c03R1Rest(c *Ctx) {
 	// handlers: every action after authentication
 	closeLockedID := hopID("transport", "SessionState", "closeLocked")
 	ctrlID := hopID("transport", "SessionState", "handleControlLocked")
-	for _, h := range sessionMsgHandlers(c, "C03.R1") {
+	allHandlers := sessionMsgHandlers(c, "C03.R1")
+	for _, h := range allHandlers {
 		hn := FuncName(h)
 		c.Analysed(hn)
 		rp := readPacketCall(h)
@@ -247,6 +299,7 @@ func c03R1Rest(c *Ctx) {
 		ev := errResultOf(rp)
 		mf := ComputeMustFacts(h)
 		n := 0
+		nInHelper := 0
 		bad := false
 		eachInstr(h, func(ins ssa.Instruction) {
 			act := ""
@@ -266,15 +319,25 @@ func c03R1Rest(c *Ctx) {
 				case ctrlID:
 					act = "handleControlLocked"
 				default:
-					// a helper of the package that hands the plaintext to the receive queue
+					// a helper of the package that hands the plaintext to the receive queue, closes or handles control
 					if g := staticCallee(&x.Call); g != nil && g.Pkg == h.Pkg && len(g.Blocks) > 0 {
 						eachInstr(g, func(gi ssa.Instruction) {
 							switch y := gi.(type) {
+							case *ssa.Call:
+								if id := calleeID(y); id == closeLockedID && handlerHelper(P, g, allHandlers) {
+									act = "closeLocked (in " + g.Name() + ")"
+									nInHelper++
+								} else if id == ctrlID && handlerHelper(P, g, allHandlers) {
+									act = "handleControlLocked (in " + g.Name() + ")"
+									nInHelper++
+								}
 							case *ssa.Send:
+								nInHelper++
 								act = "delivery to the receive queue (in " + g.Name() + ")"
 							case *ssa.Select:
 								for _, st := range y.States {
 									if st.Dir == types.SendOnly {
+										nInHelper++
 										act = "delivery to the receive queue (in " + g.Name() + ")"
 									}
 								}
@@ -294,6 +357,9 @@ func c03R1Rest(c *Ctx) {
 		})
 		if !bad {
 			c.OK("C03.R1", hn+"#post-auth", P.InstrPos(rp), fmt.Sprintf("%d delivery/control/close sites dominated by the nil edge of readPacketLocked", n))
+		}
+		if nInHelper > 1 {
+			n += nInHelper - 1 // several actions behind one call of a shared helper
 		}
 		c.Floor("C03.R1", "delivery/control/close sites in "+hn, n, 3)
 		// the packet that is opened is the datagram received, under the session's read key
@@ -333,7 +399,15 @@ func c03R1Rest(c *Ctx) {
 	for _, f := range P.ModuleFuncs() {
 		for _, cs := range callSitesIn(f, false, closeLockedID) {
 			ncl++
-			c.Check(allowed[FuncName(f)], "C03.R1", "call:closeLocked@"+FuncName(f), P.InstrPos(cs), "authenticated or local close",
+			okCaller := allowed[FuncName(f)]
+			if !okCaller {
+				for _, h := range allHandlers {
+					if f == h || handlerHelper(P, f, allHandlers) {
+						okCaller = true // the handler's body, or a helper only the handlers call (judged at its call sites above)
+					}
+				}
+			}
+			c.Check(okCaller, "C03.R1", "call:closeLocked@"+FuncName(f), P.InstrPos(cs), "authenticated or local close",
 				"closeLocked gained a caller outside the authenticated message path / local Close")
 		}
 	}
@@ -920,7 +994,37 @@ func checkC15(c *Ctx) {
 		"transport.(*Server).handleSessionMessage": true,
 		"transport.(*Client).handleSessionMessage": true,
 	}
-	ws := P.HoistWrites(P.FieldWrites(fAddr), func(fn *ssa.Function) bool { return construct[FuncName(fn)] || tail[FuncName(fn)] })
+	c15Handlers := sessionMsgHandlers(c, "C15.R1")
+	for _, h := range c15Handlers {
+		tail[FuncName(h)] = true
+	}
+	raw := P.FieldWrites(fAddr)
+	// a writer shared by the handlers only is re-expressed at each of its call sites
+	var pre []FieldWrite
+	for _, w := range raw {
+		if handlerHelper(P, w.Fn, c15Handlers) {
+			for _, e := range P.Callers(w.Fn) {
+				call, ok := e.Site.(*ssa.Call)
+				if !ok {
+					continue
+				}
+				args := callArgs(&call.Call)
+				tr := func(v ssa.Value) ssa.Value {
+					if v == nil {
+						return nil
+					}
+					if k := paramIndex(w.Fn, v); k >= 0 && k < len(args) {
+						return args[k]
+					}
+					return v
+				}
+				pre = append(pre, FieldWrite{Fn: e.Caller.Func, Instr: call, Kind: w.Kind, Base: tr(w.Base), Val: tr(w.Val), Orig: w.Instr})
+			}
+			continue
+		}
+		pre = append(pre, w)
+	}
+	ws := P.HoistWrites(pre, func(fn *ssa.Function) bool { return construct[FuncName(fn)] || tail[FuncName(fn)] })
 	for _, w := range ws {
 		n := FuncName(w.Fn)
 		cons := "write:SessionState.remoteAddr@" + n
